@@ -212,6 +212,13 @@ def sortBy {α : Type} (lt : α → α → Bool) (l : List α) : List α :=
 
 /-! ### the functions -/
 
+/-- `first` at equal times: the LARGER value wins, except that for booleans `BooleanFirstReduce` lets false
+win (`!curr.Value && prev.Value`). -/
+def firstTie (curr prev : Val) : Bool :=
+  match curr with
+  | .bool _ => curr.lt prev
+  | _ => prev.lt curr
+
 /-- Selector tie-breaking (`curr` replaces `prev`), as documented in call_iterator.go:
 min/max: better value, or equal value and EARLIER time; first/last: earlier/later time, or equal time and
 LARGER value (boolean `first`: false before true). -/
@@ -219,10 +226,7 @@ def better (fn : Fn) (curr prev : QP) : Bool :=
   match fn with
   | .min => curr.val.lt prev.val || (curr.val.eqv prev.val && decide (curr.time < prev.time))
   | .max => prev.val.lt curr.val || (curr.val.eqv prev.val && decide (curr.time < prev.time))
-  | .first => decide (curr.time < prev.time) ||
-      (decide (curr.time = prev.time) &&
-        -- equal times: the LARGER value wins, except that for booleans `BooleanFirstReduce` lets false win
-        (match curr.val with | .bool _ => curr.val.lt prev.val | _ => prev.val.lt curr.val))
+  | .first => decide (curr.time < prev.time) || (decide (curr.time = prev.time) && firstTie curr.val prev.val)
   | .last => decide (curr.time > prev.time) || (decide (curr.time = prev.time) && prev.val.lt curr.val)
   | _ => false
 
